@@ -2,6 +2,7 @@ import logging
 
 import pyhf
 from pyhf import events
+from pyhf import exceptions
 from pyhf.tensor.manager import get_backend
 from pyhf.parameters import ParamViewer
 
@@ -46,10 +47,13 @@ class shapefactor_builder:
         moddata = self.collect(thismod, nom)
         self.builder_data[key][sample]['data']['mask'] += moddata['mask']
         if thismod:
-            self.required_parsets.setdefault(
-                thismod['name'],
-                [required_parset(defined_samp['data'], thismod['data'])],
-            )
+            requirement = required_parset(defined_samp['data'], thismod['data'])
+            existing = self.required_parsets.setdefault(thismod['name'], [requirement])
+            if existing[0]['n_parameters'] != requirement['n_parameters']:
+                raise exceptions.InvalidModifier(
+                    f"The shapefactor modifier '{thismod['name']}' is shared between samples with different numbers of bins"
+                    + f" ({existing[0]['n_parameters']} and {requirement['n_parameters']})."
+                )
 
     def finalize(self):
         return self.builder_data
